@@ -66,6 +66,11 @@ def main(run):
     if want(run, 'P'):
       with anchored(run, 'C09/P'):
         run_cases(run, 'contracts.isobits', engine='P/X')
+    if want(run, 'F'):
+      with anchored(run, 'C09/F'):
+        # the observables of this property are (or read) memoised values: no covered mutator leaves one of them stale (engine F restricted to the keys these observables read)
+        from checks.fpart import run_F
+        run_F(run, entry_points=['_cython_compiled_structure', '_cython_compiled_query', 'get_mapping', '_compiled_query'])
     bounded_part(run, 'C09')
     run.assume('documented layout domain: Z 1..118, isotope offset -8..+8 relative to mdl_isotope, charge -4..4, implicit hydrogens 0..4 (known), '
                'neighbours/heteroatoms 0..14, hybridisation 1..4, ring sizes 3..65',
